@@ -376,6 +376,7 @@ fn run_partition(driver: &str, tag: &str, part: usize, works: &[Value]) -> Vec<V
     let mut res: Vec<Vec<Value>> = vec![vec![]; works.len()];
     let mut start = 0usize;
     let mut round = 0;
+    let mut hangs = 0;
     while start < works.len() {
         let outp = format!("{}.child{}.{}.ndjson", tag, part, round);
         round += 1;
@@ -450,6 +451,13 @@ fn run_partition(driver: &str, tag: &str, part: usize, works: &[Value]) -> Vec<V
             break;
         } else if status.code() == Some(77) {
             start = last_done.map(|x| x + 1).unwrap_or(works.len());
+            // a call that hangs costs a whole deadline: after three of them this partition stops (the timeout
+            // events recorded so far decide; the rest of its items is not run)
+            hangs += 1;
+            if hangs >= 3 {
+                eprintln!("partition {}: 3 calls did not return, remaining {} items skipped", part, works.len().saturating_sub(start));
+                break;
+            }
         } else {
             // the child failed outside any item: a harness problem, not the code under test
             eprintln!("child failed outside an item: {:?}\n{}", status, String::from_utf8_lossy(&out.stderr));
